@@ -26,6 +26,7 @@ type l5Op struct {
 	S     int    `json:"s,omitempty"`
 	D     int    `json:"d,omitempty"`
 	Shape int    `json:"shape,omitempty"`
+	Q     int    `json:"q,omitempty"`
 }
 
 func genL5(r *rng.R) []l5Op {
@@ -41,6 +42,8 @@ func genL5(r *rng.R) []l5Op {
 	liveD = append(liveD, nD)
 	n := 4 + r.Intn(22)
 	lastShape := 1
+	nQ := 0
+	var pendingQ []int
 	for i := 0; i < n; i++ {
 		switch x := r.Intn(20); {
 		case x < 11 && len(liveS) > 0 && len(liveD) > 0:
@@ -50,6 +53,19 @@ func genL5(r *rng.R) []l5Op {
 			}
 			lastShape = shape
 			add(l5Op{Op: "run", S: liveS[r.Intn(len(liveS))], D: liveD[r.Intn(len(liveD))], Shape: shape})
+		case x == 11 && len(liveS) > 0 && len(liveD) > 0 && nQ < 4:
+			// a Query that is built now and run later (handles may be dropped in between)
+			nQ++
+			pendingQ = append(pendingQ, nQ)
+			shape := lastShape
+			if r.Chance(1, 3) {
+				shape = r.Intn(4)
+			}
+			add(l5Op{Op: "mkq", Q: nQ, S: liveS[r.Intn(len(liveS))], D: liveD[r.Intn(len(liveD))], Shape: shape})
+		case x == 12 && len(pendingQ) > 0:
+			i := r.Intn(len(pendingQ))
+			add(l5Op{Op: "runq", Q: pendingQ[i]})
+			pendingQ = append(pendingQ[:i], pendingQ[i+1:]...)
 		case x < 13 && nS < 4:
 			add(l5Op{Op: "newS"})
 			nS++
@@ -69,6 +85,20 @@ func genL5(r *rng.R) []l5Op {
 		default:
 			add(l5Op{Op: "gc"})
 		}
+	}
+	if r.Chance(1, 2) && len(pendingQ) > 0 {
+		// drop everything, collect, and only then run the pending queries
+		for _, s := range liveS {
+			add(l5Op{Op: "dropS", S: s})
+		}
+		for _, d := range liveD {
+			add(l5Op{Op: "dropD", D: d})
+		}
+		liveS, liveD = nil, nil
+		add(l5Op{Op: "gc"})
+	}
+	for _, q := range pendingQ {
+		add(l5Op{Op: "runq", Q: q})
 	}
 	if r.Chance(1, 2) {
 		for _, s := range liveS {
@@ -150,6 +180,7 @@ func runL5Case(h []l5Op) (obs *l5Obs) {
 		}
 	}()
 	var stmts []*sqlair.Statement
+	queries := map[int]*sqlair.Query{}
 	var stmtIDs []uint64
 	var dbs []*l5DB
 	var keep []*fakedrv.State
@@ -222,6 +253,22 @@ func runL5Case(h []l5Op) (obs *l5Obs) {
 			var rows []Row
 			ctx := context.WithValue(context.Background(), fakedrv.CtxKey{}, fmt.Sprintf("d%d-k%d", op.D, op.Shape))
 			err := dbs[op.D-1].db.Query(ctx, stmts[op.S-1], ints).GetAll(&rows)
+			if err != nil && errText(err) != "noRows" {
+				obs.Errors = append(obs.Errors, err.Error())
+				if strings.Contains(err.Error(), "statement is closed") {
+					obs.ClosedErrs++
+				}
+			}
+		case "mkq":
+			ints := make(zoo.Ints, op.Shape)
+			ctx := context.WithValue(context.Background(), fakedrv.CtxKey{}, fmt.Sprintf("d%d-k%d", op.D, op.Shape))
+			queries[op.Q] = dbs[op.D-1].db.Query(ctx, stmts[op.S-1], ints)
+		case "runq":
+			var rows []Row
+			q := queries[op.Q]
+			delete(queries, op.Q)
+			err := q.GetAll(&rows)
+			q = nil
 			if err != nil && errText(err) != "noRows" {
 				obs.Errors = append(obs.Errors, err.Error())
 				if strings.Contains(err.Error(), "statement is closed") {
